@@ -21,13 +21,13 @@ fn any_class() -> Option<&'static str> {
     if k == 3 { None } else { Some(CLASSES[k]) }
 }
 fn attr_set(bits: u8) -> BTreeSet<Attribute> {
-    BTreeSet::model_from_bits(bits as u16)
+    BTreeSet::model_from_bits(bits as u64)
 }
 fn cls_set(bits: u8) -> BTreeSet<&'static str> {
-    BTreeSet::model_from_bits(bits as u16)
+    BTreeSet::model_from_bits(bits as u64)
 }
 fn str_set(bits: u8) -> BTreeSet<String> {
-    BTreeSet::model_from_bits(bits as u16)
+    BTreeSet::model_from_bits(bits as u64)
 }
 fn cls_bit(c: &str) -> u8 {
     if c == "g" { 1 } else if c == "p" { 2 } else { 4 }
